@@ -400,6 +400,12 @@ func (a *allowerContext) update(provider AuthEventProvider) {
 			a.creators = CreatorsFromCreateEvent(e)
 			verImpl := MustGetRoomVersion(e.Version())
 			a.privilegedCreators = verImpl.PrivilegedCreators()
+		} else {
+			// no (usable) create event: don't keep judging against a previous one
+			a.createEvent = nil
+			a.create = CreateContent{}
+			a.creators = nil
+			a.privilegedCreators = false
 		}
 	}
 	if e, _ := provider.PowerLevels(); a.powerLevelsEvent == nil || a.powerLevelsEvent != e {
